@@ -114,7 +114,23 @@ func observe(ctx context.Context, b store.Backing, fileLike bool) (lakeState, *l
 				st.Err = fmt.Sprintf("query %s@%s: %v", pc.Name, bc.Name, err)
 				return st, l
 			}
-			st.Pools[pc.Name][bc.Name] = digestRecs(recs)
+			digest := digestRecs(recs)
+			// the vector objects the branch claims: each must exist and hold
+			// exactly its data object's values
+			vecs, err := l.Vectors(ctx, pc.Name, bc.Name)
+			if err != nil {
+				st.Err = fmt.Sprintf("vector listing of %s@%s: %v", pc.Name, bc.Name, err)
+				return st, l
+			}
+			if len(vecs) > 0 {
+				var vs []string
+				for _, v := range vecs {
+					vs = append(vs, lk.VectorStatus(b, pc.ID, v.ID))
+				}
+				sort.Strings(vs)
+				digest += fmt.Sprintf(" +%d vectors [%s]", len(vecs), strings.Join(vs, ", "))
+			}
+			st.Pools[pc.Name][bc.Name] = digest
 		}
 	}
 	return st, l
@@ -260,6 +276,13 @@ func c17Directed() []c17Dir {
 		{spec, true, []lk.Op{load1, load2}, c17Victim{Kind: "op", Op: lk.Op{Kind: "delete", Branch: "main", Objs: []int{0}}}},
 		{spec, false, []lk.Op{load1, {Kind: "create-branch", Branch: "b1", From: "main"}, {Kind: "load", Branch: "b1", Vals: []string{"{k:9,id:9}"}}},
 			c17Victim{Kind: "op", Op: lk.Op{Kind: "merge", Branch: "main", Child: "b1"}}},
+		// vector objects: added for two data objects at once; added again for one that has one already
+		{spec, false, []lk.Op{load1, load2}, c17Victim{Kind: "op", Op: lk.Op{Kind: "add-vectors", Branch: "main", Objs: []int{0, 1}}}},
+		{spec, true, []lk.Op{load1, load2}, c17Victim{Kind: "op", Op: lk.Op{Kind: "add-vectors", Branch: "main", Objs: []int{0, 1}}}},
+		{spec, false, []lk.Op{load1, load2, {Kind: "add-vectors", Branch: "main", Objs: []int{0}}}, c17Victim{Kind: "op", Op: lk.Op{Kind: "add-vectors", Branch: "main", Objs: []int{0, 1}}}},
+		{spec, true, []lk.Op{load1, load2, {Kind: "add-vectors", Branch: "main", Objs: []int{0}}}, c17Victim{Kind: "op", Op: lk.Op{Kind: "add-vectors", Branch: "main", Objs: []int{0, 1}}}},
+		{spec, true, []lk.Op{load1, load2}, c17Victim{Kind: "op", Op: lk.Op{Kind: "compact", Branch: "main", Objs: []int{0, 1}, Vectors: true}}},
+		{spec, true, []lk.Op{load1, load2, {Kind: "add-vectors", Branch: "main", Objs: []int{0, 1}}}, c17Victim{Kind: "op", Op: lk.Op{Kind: "del-vectors", Branch: "main", Objs: []int{1}}}},
 	}
 }
 
@@ -475,7 +498,27 @@ func c17Check(c *rt.Ctx, o *rt.Obs, ctx context.Context, b store.Backing, fileLi
 		}
 	case gs == after.String():
 		o.Count("recovered_to_after_state", 1)
+	case before.String() == after.String():
+		// the operation changes nothing when it runs to completion (it is
+		// refused, or has nothing to do), yet its interrupted run did
+		o.Violation(pfx+"interrupted-no-op-changed-state"+sfx, fmt.Sprintf("%s\nreopened lake shows: %s\nbefore = after: %s", where, got, before))
+		return
 	default:
+		// which branches are in neither state?  A branch the operation does not
+		// touch makes it a different failure.
+		if v.Kind == "op" {
+			other := false
+			for p, brs := range got.Pools {
+				for br, dg := range brs {
+					if dg != before.Pools[p][br] && dg != after.Pools[p][br] && br != v.Op.Branch {
+						other = true
+					}
+				}
+			}
+			if other {
+				pfx += "uninvolved-branch:"
+			}
+		}
 		o.Violation(pfx+"neither-before-nor-after"+sfx, fmt.Sprintf("%s\nreopened lake shows: %s\nbefore: %s\nafter:  %s", where, got, before, after))
 		return
 	}
@@ -557,6 +600,10 @@ func storageAnomalies(b store.Backing) []string {
 			broken = append(broken, "empty("+cls+")")
 		case strings.HasSuffix(p, ".zng"):
 			if _, err := lk.ReadZNG(lk.NewZctx(), data); err != nil {
+				broken = append(broken, "undecodable("+cls+")")
+			}
+		case strings.HasSuffix(p, ".vng"):
+			if err := lk.CheckVNG(data); err != nil {
 				broken = append(broken, "undecodable("+cls+")")
 			}
 		}
